@@ -12,18 +12,24 @@ def addRelKinds (ks : List String) : List PatEl → List PatEl
   | .rel v ks0 p :: r => .rel v (ks0 ++ ks) p :: r
   | el :: r => el :: addRelKinds ks r
 
-/-- `fix7 = false`: the rewriter as it is (`none` = Prepare refuses); `fix7 = true`: the proposal hooks/C10-fix7 -/
-def prepareQ (fix7 : Bool) (q : Query) : Option Query :=
+inductive PrepMode where
+  | live      -- the rewriter as it is in /repo
+  | fix7      -- proposal hooks/C10-fix7: leave un-hoistable matchers in the WHERE
+  | guarded   -- proposal hooks/C10-fix8: refuse un-hoistable matchers
+deriving DecidableEq, Repr
+
+/-- `none` = Prepare refuses -/
+def prepareQ (pm : PrepMode) (q : Query) : Option Query :=
   let q1 := liftQ 0 q
   match q1.where_ with
   | none => some q1
   | some e =>
-    if !fix7 then
-      match prepare e with
-      | some p => some { q1 with pattern := addRelKinds p.1 q1.pattern, where_ := p.2 }
-      | none => none
-    else
-      let p := prepareFix7 e
-      some { q1 with pattern := addRelKinds p.1 q1.pattern, where_ := p.2 }
+    let r : Option (List String × Option Expr) := match pm with
+      | .live => prepare e
+      | .fix7 => some (prepareFix7 e)
+      | .guarded => prepareGuarded e
+    match r with
+    | some p => some { q1 with pattern := addRelKinds p.1 q1.pattern, where_ := p.2 }
+    | none => none
 
 end Dawgs.C10
